@@ -34,6 +34,18 @@ class Module:
             for child in ast.iter_child_nodes(node):
                 self.parents[child] = node
         self._index(self.tree, "")
+        self.sem_aligned = set()
+        if relpath.startswith("sasmodels/") and not os.environ.get("SA_NO_SEMALIGN"):
+            from . import refs
+            self.sem_aligned = refs.sem_align(self)
+            if self.sem_aligned:
+                # parents / index of the substituted bodies
+                self.parents = {}
+                for node in ast.walk(self.tree):
+                    for child in ast.iter_child_nodes(node):
+                        self.parents[child] = node
+                self.functions, self.classes = {}, {}
+                self._index(self.tree, "")
 
     def _index(self, node, prefix):
         for child in ast.iter_child_nodes(node):
@@ -51,6 +63,10 @@ class Module:
         f = self.functions.get(qualname)
         if f is None:
             raise AnalysisError("anchor function missing: %s:%s" % (self.relpath, qualname))
+        trace = os.environ.get("SA_TRACE_FUNCS")
+        if trace:
+            with open(trace, "a") as fd:
+                fd.write("%s\t%s\n" % (self.relpath, qualname))
         return f
 
     def has(self, qualname):
